@@ -374,6 +374,16 @@ def extract_ctf(st):
         return keys, default
 
     grab("vendors", vendors, ([], ""))
+    def emsoft_vendor():
+        for n in ast.walk(rd()):
+            if isinstance(n, ast.BoolOp) and isinstance(n.op, ast.And):
+                for v in n.values:
+                    if isinstance(v, ast.Compare) and isinstance(v.left, ast.Name) and v.left.id == "vendor" \
+                            and isinstance(v.ops[0], ast.Eq):
+                        return _lit(v.comparators[0])
+        raise NotFound("emsoft vendor test")
+
+    grab("emsoft_vendor", emsoft_vendor, "")
     grab("astar_vendor", lambda: [
         _lit(n.test.comparators[0]) for n in ast.walk(rd()) if isinstance(n, ast.If) and isinstance(n.test, ast.Compare)
         and isinstance(n.test.left, ast.Name) and n.test.left.id == "vendor"
@@ -396,6 +406,20 @@ def ctfDegrees : Bool := {"true" if c["degrees"] else "false"}
 def ctfVendorPatterns : List Str := {llist(c["vendors"][0])}
 def ctfDefaultVendor : Str := {lstr(c["vendors"][1])}
 def ctfCoordFixVendor : Str := {lstr(c["astar_vendor"])}
+
+def ctfTables : Ctf.CtfTables where
+  columns := ctfColumns
+  emsoftMapping := ctfEmsoftMapping
+  dataKeys := ctfDataKeys
+  laueIds := ctfLaueIds
+  notIndexedId := ctfNotIndexedId
+  unit := ctfUnit
+  degrees := ctfDegrees
+  vendorPatterns := ctfVendorPatterns
+  defaultVendor := ctfDefaultVendor
+  coordFixVendor := ctfCoordFixVendor
+  emsoftVendor := {lstr(c["emsoft_vendor"])}
+  phase := phaseTables
 """
 
 
@@ -529,6 +553,20 @@ def brukerPhaseKeys : List Str := {llist(b["phase_keys"])}
 def brukerUnit : Str := {lstr(b["unit"])}
 def brukerGridKey : Str := {lstr(b["grid_type"][0])}
 def brukerGridValue : Str := {lstr(b["grid_type"][1])}
+
+def brukerTables : Bruker.BrukerTables where
+  props := brukerProps
+  eulerDatasets := brukerEulerDatasets
+  degrees := brukerDegrees
+  yProp := brukerYProp
+  xProp := brukerXProp
+  sortedAttrs := brukerSortedAttrs
+  sortsProps := brukerSortsProps
+  reversedAttrs := brukerReversedAttrs
+  notIndexedId := brukerNotIndexedId
+  unit := brukerUnit
+  gridValue := brukerGridValue
+  phase := phaseTables
 """
 
 
@@ -592,6 +630,15 @@ def emsoftDictDatasets : List Str := {llist(dds)}
 def emsoftDictDegrees : Bool := {"true" if ddeg else "false"}
 def emsoftIndexBase : Int := {lint(dminus)}
 def emsoftUnit : Str := {lstr(e["unit"])}
+
+def emsoftTables : Emsoft.EmsoftTables where
+  props := emsoftProps
+  refinedDegrees := emsoftRefinedDegrees
+  dictDegrees := emsoftDictDegrees
+  indexBase := emsoftIndexBase
+  unit := emsoftUnit
+  aliases := pointGroupAliases
+  groups := pointGroupNames
 """
 
 
@@ -741,16 +788,22 @@ def h5Decode : Str := {lstr(h["generic_reader"][1])}
 def h5StrPad : Int := {lint(h["str_pad"])}
 /-- `get_point_group(n).name` for n = 1 … 230 -/
 def sgPointGroup : List Str := {llist(h["sg_point_group"])}
+
+/-- tables the `Phase` constructor consults -/
+def phaseTables : H5.PhaseTables :=
+  {{ aliases := pointGroupAliases, groups := pointGroupNames, sgPointGroup := sgPointGroup }}
 """
 
 
 def generate():
     st = {}
     sym = extract_symmetry(st)
-    parts = ["import OrixModel.Codec.Ang\n/- GENERATED by harness/extract/tables_io.py from /repo (module objects and Python AST). "
+    parts = ["import OrixModel.Codec.Ang\nimport OrixModel.Codec.H5\nimport OrixModel.Codec.Ctf\n"
+             "import OrixModel.Codec.Bruker\nimport OrixModel.Codec.Emsoft\n"
+             "/- GENERATED by harness/extract/tables_io.py from /repo (module objects and Python AST). "
              "Do not edit. -/\nnamespace Orix.Gen.Io\nopen Orix.Codec Orix.Codec.Ang\n",
-             render_symmetry(sym), render_ang(extract_ang(st), sym), render_ctf(extract_ctf(st)),
-             render_bruker(extract_bruker(st)), render_emsoft(extract_emsoft(st)), render_h5(extract_h5(st)),
+             render_symmetry(sym), render_ang(extract_ang(st), sym), render_h5(extract_h5(st)),
+             render_ctf(extract_ctf(st)), render_bruker(extract_bruker(st)), render_emsoft(extract_emsoft(st)),
              "end Orix.Gen.Io\n"]
     return "\n".join(parts), st
 
